@@ -34,14 +34,14 @@ func (o sop) String() string {
 		}
 		return fmt.Sprintf("send(%d->%d,%s,%s)", o.P, o.Q, o.Kind, o.Epoch)
 	case "ack", "clear":
-		return fmt.Sprintf("%s(%d->%d,%s)", o.Op, o.P, o.Q, o.X)
+		return fmt.Sprintf("%s(%d->%d,%s,%s)", o.Op, o.P, o.Q, o.X, o.Epoch)
 	case "listen", "unlisten":
 		return fmt.Sprintf("%s(%d)", o.Op, o.P)
 	}
 	return fmt.Sprintf("%s(%d->%d)", o.Op, o.P, o.Q)
 }
 
-var msgKinds = []string{"honest", "honest", "honest", "other-signer", "claims-other", "tampered-body", "tampered-sig", "unsigned", "other-context", "empty-body"}
+var msgKinds = []string{"honest", "honest", "honest", "other-signer", "other-signer-with-key", "claims-other", "tampered-body", "tampered-sig", "unsigned", "other-context", "empty-body"}
 var epochKinds = []string{"current", "current", "current", "stale", "zero", "future", "huge"}
 
 // genSops draws a history from the given operation mix over nPeers identities.
@@ -58,6 +58,8 @@ func genSops(t *rapid.T, ops []string, nPeers, minN, maxN int) []sop {
 			o.Reuse = rapid.IntRange(0, 2).Draw(t, "reuse") == 0
 		case "ack", "clear":
 			o.X = rapid.SampledFrom([]string{"last", "last", "bogus"}).Draw(t, "x")
+			// a delayed acknowledgement / clear is stamped with the previous session epoch
+			o.Epoch = rapid.SampledFrom([]string{"current", "current", "current", "stale"}).Draw(t, "ackepoch")
 		}
 		out = append(out, o)
 	}
@@ -79,6 +81,16 @@ type submitted struct {
 	epochKind string
 }
 
+// ackSub is one AckMsg / ClearMsg request the harness submitted.
+type ackSub struct {
+	at        int64
+	op        string
+	from, to  int
+	n         uint64
+	epochSent uint64
+	epochCur  uint64
+}
+
 // strace is everything observed while executing a relay-side history.
 type strace struct {
 	srv     *signaling_rpc_server.Server
@@ -92,6 +104,7 @@ type strace struct {
 	allLis     []*srvListen
 	usurpedL   []*srvListen
 	subs       []submitted
+	acks       []ackSub
 	seq        uint64
 	hist       []string
 	classes    map[string]bool
@@ -282,10 +295,19 @@ func (t *strace) apply(o sop) bool {
 		} else {
 			t.classes["unsolicited-"+o.Op] = true
 		}
+		ep := cur
+		if o.Epoch == "stale" {
+			if cur <= 1 {
+				return false
+			}
+			ep = cur - 1
+			t.classes["stale-epoch-"+o.Op] = true
+		}
+		t.acks = append(t.acks, ackSub{at: tick(), op: o.Op, from: o.P, to: o.Q, n: x, epochSent: ep, epochCur: cur})
 		if o.Op == "ack" {
-			s.in <- &signaling.SessionRequest{SessionSeqno: cur, Body: &signaling.SessionRequest_AckMsg{AckMsg: x}}
+			s.in <- &signaling.SessionRequest{SessionSeqno: ep, Body: &signaling.SessionRequest_AckMsg{AckMsg: x}}
 		} else {
-			s.in <- &signaling.SessionRequest{SessionSeqno: cur, Body: &signaling.SessionRequest_ClearMsg{ClearMsg: x}}
+			s.in <- &signaling.SessionRequest{SessionSeqno: ep, Body: &signaling.SessionRequest_ClearMsg{ClearMsg: x}}
 		}
 	case "listen":
 		if old := t.listens[o.P]; old != nil {
